@@ -45,6 +45,9 @@ def configs(tier, seed):
         fsets = [f for i, f in enumerate(fsets) if len(f) < 3 or (len(f) == 3 and i % 9 == 0) or (len(f) == 4 and i % 60 == 0)]
     else:
         fsets = [f for i, f in enumerate(fsets) if len(f) < 3 or i % 3 == 0]
+    # flows from a process to itself (an internal recycling loop): they cancel in the balance but count among the contributions
+    fsets = list(fsets) + [(("p1", "p1"),), (("sysenv", "p1"), ("p1", "p1")), (("p1", "p1"), ("p1", "p2")), (("sysenv", "p1"), ("p1", "p1"), ("p1", "sysenv")),
+                           (("sysenv", "sysenv"), ("sysenv", "p2"))]
     stockcfgs = [[], ["p1"], ["sysenv"], [None], ["p1", None], ["p1", "p1"]] + ([["p2", "p1"]] if tier == "thorough" else [])
     nrot = 3
     i = 0
@@ -125,7 +128,7 @@ def _build(cfg, w, nan=False, fortran=False):
     flows, F = {}, {}
     for i, ((a, b), d) in enumerate(zip(cfg["flows"], cfg["fdims"])):
         name = f"{a} => {b} #{i}" if not cfg.get("short_names") else f"{a} => {b}"
-        name = cfg.get("name_prefix", "") + name
+        name = cfg.get("name_prefix", "") + name + cfg.get("name_suffix", "")
         shape = tuple(LENS[l] for l in d)
         V = w.arr(f"f{i}", shape)
         if nan:
